@@ -2,7 +2,7 @@
 CHECK = {
     "pkg": "cert", "files": ["cert/certgen_test.go", "cert/c01_test.go"], "run": "^TestC01",
     "quick": {"scale": 1, "shards": 1, "timeout": 600},
-    "thorough": {"scale": 12, "shards": 8, "timeout": 1800},
+    "thorough": {"scale": 5, "shards": 8, "timeout": 1800},
     "rule": "per case a trust universe of 1-4 CAs (v1/v2 x Curve25519/P-256, generated window, optional group / "
             "network / unsafe-network constraints) and one leaf drawn around the constraint lattice of its issuer "
             "(inside, equal, one bit shorter, sibling block, other family; window equal / inside / one second outside; "
